@@ -358,7 +358,7 @@ class Gen:
         q0, _, _, _ = self.state(coords, sph)
         cl, rows, has_loop = self.cset(ops, coords, sph, q0, **kw)
         out = ["case x"] + lines + cl
-        if rows == 0: out.append("contact 0 0.0 0.0 0.0 0.0 0.0 1.0"); rows = 1
+        if rows == 0: out.append("contact 0 0.25 -0.375 0.5 0.0 0.0 1.0"); rows = 1
         Q = self.vec(q0)
         for _ in range(ncalls):
             rt = r.choice(routines); self.count("calls", rt)
@@ -383,12 +383,14 @@ class Gen:
         """constrained inverse dynamics with an actuation map: exact operator with as many unactuated coordinates as
         constraint rows, relaxed operator with any map, full-actuation test with any map"""
         r = self.r
-        lines, ops, coords, sph = self._model_nonempty(nmin=2, nmax=6, kinds=[k for k in self.JOINTS if k not in ("crztx",)] + ["float", "float"])
+        for _t in range(20):
+            lines, ops, coords, sph = self._model_nonempty(nmin=2, nmax=6, kinds=[k for k in self.JOINTS if k not in ("crztx",)] + ["float", "float"])
+            if len(coords) >= 2: break     # the relaxed operator needs at least one direction left free by the constraints
         q0, _, _, _ = self.state(coords, sph)
         n = len(coords)
         cl, rows, has_loop = self.cset(ops, coords, sph, q0, clean_loops=True, max_rows=max(1, min(6, n - 1)))
         out = ["case x"] + lines + cl
-        if rows == 0: out.append("contact 0 0.0 0.0 0.0 0.0 0.0 1.0"); rows = 1
+        if rows == 0: out.append("contact 0 0.25 -0.375 0.5 0.0 0.0 1.0"); rows = 1
         Q = self.vec(q0)
         for _ in range(5):
             rt = r.choice(["exact", "exact", "relaxed", "fullact"]); self.count("calls", "idc_" + rt if rt != "fullact" else rt)
@@ -463,7 +465,7 @@ class Gen:
         n = len(coords)
         cl, rows, has_loop = self.cset(ops, coords, sph, q0, allow_contacts=(r.random() < 0.3), max_rows=max(1, min(6, n - 1)))
         out = ["case x"] + lines + cl
-        if rows == 0: out.append("contact 0 0.0 0.0 0.0 0.0 0.0 1.0"); rows = 1
+        if rows == 0: out.append("contact 0 0.25 -0.375 0.5 0.0 0.0 1.0"); rows = 1
         for _ in range(4):
             wts = [float(r.choice([1, 1, 2, 0.5, 4])) for _ in range(n)]
             if r.random() < 0.6:
